@@ -147,6 +147,9 @@ def memalg_unit(elem, std=17):
     E = ELEMS[elem]
     lines = ['#include "drv_memory.hpp"', 'using E = %s;' % E, 'template void drv::use_memory<E>(E*, E*, const E*, int);',
              'template void drv::use_allocator<E>(amc::allocator<E>&, int);']
+    if elem == 'TC':
+        for fr, to in (('float', 'int'), ('unsigned', 'int'), ('int', 'long'), ('char', 'signed char')):
+            lines.append('template void drv::use_memory_convert<%s, %s >(const %s*, const %s*, %s*, int);' % (fr, to, fr, fr, to))
     if elem in COPYABLE:
         lines.append('template void drv::use_memory_copy<E>(E*, const E*, const E*, int);')
     for it in (('fwd', 'bidir', 'input') if elem in COPYABLE else ()):
